@@ -41,6 +41,8 @@ pub fn universe() -> Vec<E> {
     u.push(E::Map(vec![("y".into(), E::Int(1))]));
     u.push(E::Map(vec![("x".into(), E::Int(0)), ("y".into(), E::Int(1))]));
     u.push(E::Map(vec![("x".into(), lit_str("a")), ("y".into(), E::List(vec![E::Int(0)])), ("z".into(), E::Int(1))]));
+    u.push(E::Map(vec![("count".into(), E::Int(3)), ("x".into(), E::Int(0))]));
+    u.push(E::Map(vec![("min".into(), E::Int(1)), ("keys".into(), E::Int(2))]));
     let n = ATOMS.len();
     for list in [false, true] {
         let mk = |v: Vec<E>| if list { E::List(v) } else { E::Tuple(v) };
@@ -135,10 +137,14 @@ impl<'a> PG<'a> {
             }
             _ => {
                 self.nested_used = true;
-                let keys = ["x", "y", "z"];
+                // besides plain keys: keys that are also names of core-library functions of maps and
+                // iterators (a missing key must not be found in a library module)
+                let pool = ["x", "y", "z", "count", "min", "keys", "next", "size", "first", "get"];
                 let n = 1 + self.s.below(2) as usize;
+                let start = if self.s.chance(35) { 3 + self.s.below(6) as usize } else { 0 };
+                let keys: Vec<&str> = (0..n).map(|i| pool[(start + i) % pool.len()]).collect();
                 let mut es = vec![];
-                for k in keys.iter().take(n) {
+                for k in keys.iter() {
                     if bind {
                         if self.s.chance(30) {
                             let r = self.fresh();
@@ -249,13 +255,76 @@ pub fn program(shape: &Shape, subjects: &[Vec<E>]) -> Vec<E> {
     prog
 }
 
+/// Names documented for a core-library module (`## name` headings of its documentation page)
+fn core_names(module: &str) -> &'static Vec<String> {
+    use std::collections::HashMap;
+    use std::sync::{Mutex, OnceLock};
+    static CACHE: OnceLock<Mutex<HashMap<String, &'static Vec<String>>>> = OnceLock::new();
+    let mut c = CACHE.get_or_init(|| Mutex::new(HashMap::new())).lock().unwrap();
+    if let Some(v) = c.get(module) {
+        return v;
+    }
+    let text = std::fs::read_to_string(format!("/repo/docs/core_lib/{module}.md")).unwrap_or_default();
+    let names: Vec<String> = text.lines().filter_map(|l| l.strip_prefix("## ")).map(|n| n.trim().to_string()).collect();
+    let leaked: &'static Vec<String> = Box::leak(Box::new(names));
+    c.insert(module.to_string(), leaked);
+    leaked
+}
+
+fn map_pattern_keys(p: &Pat, out: &mut Vec<String>) {
+    match p {
+        Pat::Map(es) => out.extend(es.iter().map(|e| e.0.clone())),
+        Pat::Seq(ps, _) => ps.iter().for_each(|q| map_pattern_keys(q, out)),
+        _ => {}
+    }
+}
+
+/// Recorded finding C03-map-pattern-core-fn: a map pattern reads its keys with the ordinary `.` lookup,
+/// so a key that names a core-library function of the subject's type "is present" in any such value
+fn core_fn_leak(shape: &Shape, subject: &[E]) -> bool {
+    let mut keys = vec![];
+    for a in &shape.arms {
+        for alt in &a.alts {
+            for p in alt {
+                map_pattern_keys(p, &mut keys);
+            }
+        }
+    }
+    fn leaks(k: &str, v: &E) -> bool {
+        if let E::Paren(x) = v {
+            return leaks(k, x);
+        }
+        let has = |m: &str| core_names(m).iter().any(|n| n == k);
+        let here = match v {
+            E::List(_) => has("list") || has("iterator"),
+            E::Tuple(_) => has("tuple") || has("iterator"),
+            E::Str(_) => has("string") || has("iterator"),
+            E::Range(..) => has("range") || has("iterator"),
+            E::Int(_) | E::Float(_) => has("number"),
+            E::Map(es) => !es.iter().any(|(n, _)| n == k) && has("map"),
+            _ => false,
+        };
+        here || match v {
+            E::List(xs) | E::Tuple(xs) => xs.iter().any(|x| leaks(k, x)),
+            E::Map(es) => es.iter().any(|(_, x)| leaks(k, x)),
+            _ => false,
+        }
+    }
+    keys.iter().any(|k| subject.iter().any(|v| leaks(k, v)))
+}
+
 pub fn eval_shape(shape: &Shape, subjects: &[Vec<E>]) -> Eval {
     // judge every subject separately in M; keep the judged ones for the Koto script
     let mut judged: Vec<Vec<E>> = vec![];
     let mut expected = String::new();
     let mut nontrivial = false;
     let mut unjudged = 0;
+    let mut leak_excluded = 0;
     for s in subjects {
+        if core_fn_leak(shape, s) {
+            leak_excluded += 1;
+            continue;
+        }
         let p = program(shape, std::slice::from_ref(s));
         let m = model::run_program(&p, true);
         match m.result {
@@ -270,12 +339,19 @@ pub fn eval_shape(shape: &Shape, subjects: &[Vec<E>]) -> Eval {
         }
     }
     if judged.is_empty() {
-        return Eval { discard: true, classes: vec!["all-subjects-unjudged"], ..Default::default() };
+        let mut ev = Eval { discard: true, classes: vec!["all-subjects-unjudged"], ..Default::default() };
+        for _ in 0..leak_excluded {
+            ev.classes.push("excluded:map-pattern-core-fn");
+        }
+        return ev;
     }
     let prog = program(shape, &judged);
     let src = print_program(&prog, &Layout::canonical());
     let out = kx::run(&src, &RunOpts::default());
     let mut ev = Eval::pass(nontrivial);
+    for _ in 0..leak_excluded {
+        ev.classes.push("excluded:map-pattern-core-fn");
+    }
     if unjudged > 0 {
         ev.classes.push("some-subjects-unjudged");
     }
